@@ -311,6 +311,14 @@ impl Gen<'_> {
         _ => OutSpec::P2wpkh,
       });
     }
+    if p.p_inscribe > 0 && self.rng.chance(1, 4) {
+      // C37: a valued OP_RETURN output first, so that inscriptions are created on / moved onto it
+      feat(&mut self.f, "out:op_return-first");
+      if self.rng.chance(1, 3) {
+        outs.clear();
+      }
+      outs.insert(0, OutSpec::Script(vec![0x6a, 0x01, 0x58]));
+    }
     if plain {
       feat(&mut self.f, "tx:plain-transfer");
       self.maybe_inscribe(&mut ins);
